@@ -350,16 +350,50 @@ def _radix(h, t, what):
     h.fail(f"{what}: cannot read the radix {t!r}")
 
 
-def _radix_chain(h, body, kind, what):
-    """the `if let Some(x) = T.strip_prefix("P") {A} else if ... else if S.starts_with('0') {B} else {C}` chain:
-    returns ([(prefix, stripped, radix)], default radix).  kind = 'constant' (bodies are calls of
-    from_str_radix / parse) | 'value' (bodies are `(digits, radix)` pairs)"""
-    m = re.search(r"=\s*if\s+let\s+Some\(", body)
+def _free_fns(src):
+    """name -> body of every `fn name(..) {..}` of the file (comments stripped), innermost text only"""
+    out = {}
+    for m in re.finditer(r"\bfn\s+(\w+)\s*(?:<[^>]*>)?\s*\(", src):
+        out.setdefault(m.group(1), m.start())
+    return out
+
+
+def _radix_chain(h, src, fn_name, kind, what):
+    """The notation rules of a numeric text: the chain
+        `if let Some(x) = T.strip_prefix("P") {A} [else if let ..] else if S.starts_with('0') {B} else {C}`
+    in `fn fn_name`, or in a helper function of the same file that `fn_name` calls.  Accepted rewrites: the
+    chain moved into a helper; several prefixes with one body written `T.strip_prefix("P").or_else(||
+    T.strip_prefix("Q"))`, directly or through a `let`; a radix written as a literal in any base or as a
+    named `const`.  Returns ([(prefix, stripped, radix)], default radix).  kind = 'constant' (arms are calls
+    of from_str_radix / parse) | 'value' (arms are `(digits, radix)` pairs)."""
+    clean = _strip_comments(src)
+    body = _fn_body(h, src, fn_name)
+    if "strip_prefix(" not in body:
+        cands = [n for n in _free_fns(clean) if n != fn_name and re.search(r"\b" + n + r"\s*\(", body)]
+        cands = [n for n in cands if "strip_prefix(" in _fn_body(h, src, n)]
+        if len(cands) != 1:
+            h.fail(f"{what}: no `strip_prefix` in fn {fn_name} and {len(cands)} helper(s) with one: {cands}")
+        what = f"{what} (helper fn {cands[0]})"
+        body = _fn_body(h, src, cands[0])
+    consts = {m.group(1): m.group(2) for m in re.finditer(r"\bconst\s+(\w+)\s*:\s*\w+\s*=\s*([0-9A-Za-z_]+)\s*;", clean)}
+
+    def radix(t):
+        t = consts.get(t, t)
+        return _radix(h, t, what)
+
+    lets = {m.group(1): _nows(m.group(2))
+            for m in re.finditer(r"\blet\s+(\w+)\s*=\s*((?:(?!\bif\b)[^;])*strip_prefix[^;]*);", body)}
+    m = None
+    for cand in re.finditer(r"\bif\s+let\s+Some\(\w+\)\s*=\s*([^{]*)\{", body):
+        rhs = _nows(cand.group(1))
+        if "strip_prefix" in lets.get(rhs, rhs):
+            m = cand
+            break
     if not m:
-        h.fail(f"{what}: the radix chain was not found")
-    i = m.start() + 1
+        h.fail(f"{what}: the radix chain (`if let Some(..) = ...strip_prefix`) was not found")
+    rest = body[m.start():]
     rules, default = [], None
-    rest = body[i:]
+    one = r'(\w+)\.strip_prefix\("([^"\\]+)"\)'
     while True:
         rest = rest.lstrip()
         if rest.startswith("if"):
@@ -367,27 +401,37 @@ def _radix_chain(h, body, kind, what):
             cond = _nows(rest[2:brace])
             blk = h.item_body(rest[brace:], r"", what)
             after = rest[brace + len(blk) + 2:].lstrip()
-            mm = re.fullmatch(r'letSome\((\w+)\)=(\w+)\.strip_prefix\("([^"\\]+)"\)', cond)
-            ms = re.fullmatch(r"(\w+)\.starts_with\('([^'\\])'\)", cond)
             b = _nows(blk)
+            mm = re.fullmatch(r"letSome\((\w+)\)=(.+)", cond)
+            ms = re.fullmatch(r"(\w+)\.starts_with\('([^'\\])'\)", cond)
             if mm:
-                var, subj, pre = mm.groups()
+                var, rhs = mm.groups()
+                rhs = lets.get(rhs, rhs)
+                parts = re.split(r"\.or_else\(\|\|", rhs)
+                pres = []
+                for k, part in enumerate(parts):
+                    part = part[:-1] if k > 0 and part.endswith(")") else part
+                    mp = re.fullmatch(one, part)
+                    if not mp:
+                        h.fail(f"{what}: cannot read the condition {cond!r}")
+                    pres.append(mp.group(2))
                 if kind == "constant":
                     mb = re.fullmatch(r"i64::from_str_radix\(" + var + r",(\w+)\)", b)
                 else:
                     mb = re.fullmatch(r"\(" + var + r",(\w+)\)", b)
                 if not mb:
-                    h.fail(f"{what}: cannot read the body {b!r} of the rule for prefix {pre!r}")
-                rules.append((pre, True, _radix(h, mb.group(1), what)))
+                    h.fail(f"{what}: cannot read the body {b!r} of the rule for prefix {pres!r}")
+                for pre in pres:
+                    rules.append((pre, True, radix(mb.group(1))))
             elif ms:
                 subj, ch = ms.groups()
                 if kind == "constant":
-                    mb = re.fullmatch(r"i64::from_str_radix\(token,(\w+)\)", b)
+                    mb = re.fullmatch(r"i64::from_str_radix\(\w+,(\w+)\)", b)
                 else:
                     mb = re.fullmatch(r"\(" + subj + r",(\w+)\)", b)
                 if not mb:
                     h.fail(f"{what}: cannot read the body {b!r} of the rule for first character {ch!r}")
-                rules.append((ch, False, _radix(h, mb.group(1), what)))
+                rules.append((ch, False, radix(mb.group(1))))
             else:
                 h.fail(f"{what}: cannot read the condition {cond!r}")
             if not after.startswith("else"):
@@ -396,18 +440,18 @@ def _radix_chain(h, body, kind, what):
         elif rest.startswith("{"):
             b = _nows(h.item_body(rest, r"", what))
             if kind == "constant":
-                if b == "token.parse()":
+                if re.fullmatch(r"\w+\.parse(::<i64>)?\(\)", b):
                     default = 10
                 else:
-                    mb = re.fullmatch(r"i64::from_str_radix\(token,(\w+)\)", b)
+                    mb = re.fullmatch(r"i64::from_str_radix\(\w+,(\w+)\)", b)
                     if not mb:
                         h.fail(f"{what}: cannot read the default {b!r}")
-                    default = _radix(h, mb.group(1), what)
+                    default = radix(mb.group(1))
             else:
                 mb = re.fullmatch(r"\(\w+,(\w+)\)", b)
                 if not mb:
                     h.fail(f"{what}: cannot read the default {b!r}")
-                default = _radix(h, mb.group(1), what)
+                default = radix(mb.group(1))
             break
         else:
             h.fail(f"{what}: unexpected text in the radix chain: {rest[:40]!r}")
@@ -469,13 +513,8 @@ def arith_eval_tables(h):
     port_errors = _enum_names(h, port, "PortabilityError", "enum PortabilityError")
 
     nt = _fn_body(h, tok, "next_token")
-    crules, cdefault = _radix_chain(h, nt[nt.index("let parse"):] if "let parse" in nt else h.fail("next_token: `let parse` not found"),
-                                    "constant", "next_token")
-    pi = _fn_body(h, ev, "parse_integer")
-    k = pi.find("let (digits, radix)")
-    if k < 0:
-        h.fail("parse_integer: `let (digits, radix)` not found")
-    vrules, vdefault = _radix_chain(h, pi[k:], "value", "parse_integer")
+    crules, cdefault = _radix_chain(h, tok, "next_token", "constant", "next_token")
+    vrules, vdefault = _radix_chain(h, ev, "parse_integer", "value", "parse_integer")
 
     # characters of a term
     k = nt.find("trim_start_matches")
@@ -483,8 +522,14 @@ def arith_eval_tables(h):
         h.fail("next_token: `trim_start_matches` (the term character class) not found")
     arg = h.item_body(nt[k:], r"trim_start_matches", "next_token: trim_start_matches(..)")
     m = re.fullmatch(r"\s*\|\s*c\s*(?::\s*char\s*)?\|(.*)", arg, flags=re.S)
+    if not m and re.fullmatch(r"\s*\w+\s*", arg):
+        # a named predicate `fn name(c: char) -> bool { .. }` of the same file
+        pb = _fn_body(h, tok, arg.strip())
+        m = re.fullmatch(r"(.*)", pb, flags=re.S)
+        if not re.search(r"\bfn\s+" + arg.strip() + r"\s*\(\s*c\s*:\s*char\s*\)\s*->\s*bool", _strip_comments(tok)):
+            h.fail(f"next_token: the term predicate {arg.strip()} is not `fn(c: char) -> bool`")
     if not m:
-        h.fail(f"next_token: the term character class is not a closure `|c: char| ..`: {arg[:80]!r}")
+        h.fail(f"next_token: the term character class is neither a closure `|c: char| ..` nor a named predicate: {arg[:80]!r}")
     parts = [_nows(x) for x in m.group(1).split("||")]
     if "c.is_alphanumeric()" not in parts:
         h.fail(f"next_token: the term character class {parts} lacks c.is_alphanumeric()")
